@@ -1484,6 +1484,21 @@ def fam_names(prop, tier):
         b += "    assert!(r == %s, \"C17: nesting changed the meaning of a macro\");\n" % exp
         hn = "c17_nest_%s" % name
         out.append(Harness(hn, harness_fn(hn, b, unwind=4), prog, note="nesting depth up to 3"))
+    # a nested macro written as a BARE operand (`op join! { .. }`): it is an ordinary expression operand, evaluated where and
+    # as often as the documented method call evaluates its argument
+    prog = "join! { if c { Some(Some(a)) } else { None } |> >>> |> join! { tag(code(K_CAP, 0, 0, 1), |x: u8| x.wrapping_add(1)) } <<< }"
+    b = "    let a: u8 = kani::any(); let c: bool = kani::any();\n"
+    b += "    let r: Option<Option<u8>> = %s;\n" % prog
+    b += "    let exp: Option<Option<u8>> = (if c { Some(Some(a)) } else { None }).map(|v| v.map(|x: u8| x.wrapping_add(1)));\n"
+    b += "    assert!(r == exp, \"C17: nesting changed the meaning of a macro\");\n"
+    b += "    assert!(tlen() == (c as usize), \"C17: a nested macro inside a wrapper must be evaluated when (and only when) the wrapped chain runs\");\n"
+    out.append(Harness("c17_nest_bare_operand_in_wrapper", harness_fn("c17_nest_bare_operand_in_wrapper", b, unwind=4), prog, note="nested macro as a bare operand inside a wrapper"))
+    prog = "join! { tag(code(K_INIT, 0, 0, 0), Some(a)), Some(2u8) |> join! { tag(code(K_CAP, 1, 0, 1), |x: u8| x.wrapping_add(1)) } |> try_join! { tag(code(K_CAP, 1, 0, 2), Some(|x: u8| x.wrapping_mul(2))) }.unwrap() }"
+    b = "    let a: u8 = kani::any();\n"
+    b += "    let r: (Option<u8>, Option<u8>) = %s;\n" % prog
+    b += "    assert!(r == (Some(a), Some(6)), \"C17: nesting changed the meaning of a macro\");\n"
+    b += "    assert!(tlen() == 3 && tr(0) == code(K_INIT, 0, 0, 0) && tr(1) == code(K_CAP, 1, 0, 1) && tr(2) == code(K_CAP, 1, 0, 2), \"C17: nested macros used as operands must be evaluated in place, like any other operand expression\");\n"
+    out.append(Harness("c17_nest_bare_operand_order", harness_fn("c17_nest_bare_operand_order", b, unwind=4), prog, note="nested macros as bare operands: evaluated in place"))
     return out
 
 
@@ -1495,9 +1510,105 @@ FAMILIES["C17"] = [fam_names]
 # and run natively on sampled input vectors (Kani has no threads).  Bounded stand-in: one OS schedule per run.
 # ======================================================================================
 
+def _pos_async_spawn_harness(prop, mac, var, ds):
+    """C04 under the tokio-spawning macros (native only): branch i's final value is element i / handler argument i"""
+    n = len(ds)
+    is_try = mac.startswith("try")
+    b = ""
+    for i in range(n):
+        b += "    let a%d: u8 = kani::any();\n" % i
+
+    def f(i, s, x):
+        return "%s.wrapping_mul(3).wrapping_add(%d)" % (x, K(i, s))
+    brs = []
+    for i in range(n):
+        t = "core::future::ready(%s)" % ("Ok::<u8, u8>(a%d)" % i if is_try else "a%d" % i)
+        for s in range(1, ds[i]):
+            if is_try:
+                t += " ~=> |x: u8| core::future::ready(Ok::<u8, u8>(%s))" % f(i, s, "x")
+            else:
+                t += " ~|> |x: u8| %s" % f(i, s, "x")
+        brs.append(t)
+    args = ", ".join("x%d: u8" % i for i in range(n))
+    tupx = "(" + ", ".join("x%d" % i for i in range(n)) + ("," if n == 1 else "") + ")"
+    handler = ""
+    if var == "then":
+        handler = ", then => |%s| core::future::ready(%s)" % (args, tupx)
+    elif var == "map":
+        handler = ", map => |%s| %s" % (args, tupx)
+    prog = "%s! { %s%s }" % (mac, ", ".join(brs), handler)
+    vals = []
+    for i in range(n):
+        e = "a%d" % i
+        for s in range(1, ds[i]):
+            e = f(i, s, e)
+        vals.append(e)
+    has_h = var in ("then", "map")
+    hty = "(" + ", ".join(["u8"] * n) + ("," if n == 1 else "") + ")"
+    vty = hty if has_h else tupty("u8", n)
+    rty = "Result<%s, u8>" % vty if is_try else vty
+    expv = ("(" + ", ".join(vals) + ("," if n == 1 else "") + ")") if has_h else tup(vals)
+    b += "    let r: %s = block_on_tokio(async move { %s.await });\n" % (rty, prog)
+    b += "    let exp: %s = %s;\n" % (rty, ("Ok(%s)" % expv) if is_try else expv)
+    b += "    assert!(r == exp, \"C04: element i of the result is not branch i's final value\");\n"
+    name = "%s_pos_%s_%s_%s" % (prop.lower(), mac, var, pname(ds))
+    return Harness(name, harness_fn(name, b), prog, note="profile %s, %s, %s (tokio tasks, native)" % (ds, mac, var))
+
+
+def _try_async_spawn_harness(prop, ds):
+    """C05/C06 under try_join_async_spawn! (native only): Ok(tuple) iff no evaluated position fails; otherwise the payload
+    of a branch failing in the EARLIEST failing step; no callback of a later step runs"""
+    n = len(ds)
+    b = ""
+    for i in range(n):
+        for s in range(ds[i]):
+            b += "    let f_%d_%d: bool = kani::any();\n" % (i, s)
+
+    def pay(i, s):
+        return 100 + 10 * i + s
+    brs = []
+    for i in range(n):
+        t = "core::future::ready(if f_%d_0 { Err::<u8, u8>(%d) } else { Ok(%d) })" % (i, pay(i, 0), K(i, 0))
+        for s in range(1, ds[i]):
+            t += " ~=> move |x: u8| { ev(code(K_CALL, %d, %d, 0)); core::future::ready(if f_%d_%d { Err::<u8, u8>(%d) } else { Ok(x.wrapping_add(%d)) }) }" % (
+                i, s, i, s, pay(i, s), K(i, s))
+        brs.append(t)
+    prog = "try_join_async_spawn! { %s }" % ", ".join(brs)
+    rty = "Result<%s, u8>" % tupty("u8", n)
+    b += "    let r: %s = block_on_tokio(async move { %s.await });\n" % (rty, prog)
+    b += "    let mut fail_step: i32 = -1;\n"
+    for s in reversed(range(max(ds))):
+        act = [i for i in range(n) if ds[i] > s]
+        b += "    if %s { fail_step = %d; }\n" % (" || ".join("f_%d_%d" % (i, s) for i in act), s)
+    vals = []
+    for i in range(n):
+        v = K(i, 0)
+        for s in range(1, ds[i]):
+            v = (v + K(i, s)) % 256
+        vals.append(str(v))
+    b += "    assert!(r.is_ok() == (fail_step < 0), \"C05: success iff no evaluated position fails\");\n"
+    b += "    if fail_step < 0 { assert!(r == Ok(%s), \"C05: all-success tuple\"); }\n" % tup(vals)
+    b += "    if let Err(e) = r {\n        let mut found = false;\n"
+    for s in range(max(ds)):
+        for i in [i for i in range(n) if ds[i] > s]:
+            b += "        if fail_step == %d && f_%d_%d && e == %d { found = true; }\n" % (s, i, s, pay(i, s))
+    b += "        assert!(found, \"C05: Err payload is not that of a branch failing in the earliest failing step\");\n    }\n"
+    b += "    let nev = tlen().min(TMAX);\n"
+    b += "    for k in 0..nev { assert!(fail_step < 0 || (step_of(tr(k)) as i32) <= fail_step, \"C06: a callback of a step after the failing one ran\"); }\n"
+    name = "%s_try_async_spawn_%s" % (prop.lower(), pname(ds))
+    return Harness(name, harness_fn(name, b), prog, note="profile %s, try_join_async_spawn (tokio tasks, native)" % (ds,))
+
+
 def native_families(pid, tier):
     out = []
     quick = tier == "quick"
+    if pid == "C04":
+        for mac, var in [("join_async_spawn", "plain"), ("try_join_async_spawn", "plain"), ("join_async_spawn", "then"), ("try_join_async_spawn", "map"), ("async_spawn", "plain")]:
+            for ds in [(1, 2), (2, 1), (1, 2, 2), (2, 1, 3), (3, 1, 2), (1, 2, 3), (2, 1, 2, 2)]:
+                out.append(_pos_async_spawn_harness(pid, mac, var, ds))
+    if pid in ("C05", "C06"):
+        for ds in [(2, 2), (1, 2), (2, 1), (3,), (3, 2), (2, 3), (1, 3, 2), (3, 1, 2), (1, 2, 3)]:
+            out.append(_try_async_spawn_harness(pid, ds))
     if pid == "C04":
         profs = [(1, 2), (2, 1), (1, 2, 2), (2, 1, 2), (1, 3, 2), (3, 1, 2), (2, 3, 1), (1, 2, 3), (2, 1, 2, 2)] + ([] if quick else profiles([2, 3], 3))
         for mac, var in [("join_spawn", "plain"), ("try_join_spawn", "plain"), ("join_spawn", "then"), ("try_join_spawn", "map"),
